@@ -12,6 +12,9 @@
  * second C02/C03 round (nothing above changes):
  *         F pgno subno level 4  like the plain form with the opacity as seventh number of every cell (boxing)
  *         N pgno subno          vbi_fetch_vt_page(Level 1.5, 25 rows, navigation ON) -> {"ok":..,"pgno","subno","nav":[[pgno,subno] x 6]}
+ * third C02 round (nothing above changes):
+ *         G pgno subno level nrows nav   vbi_fetch_vt_page(level, nrows display rows, navigation nav) -> {"ok":..,"pgno","subno","nrows","ncols",
+ *                               "rows":["<ncols x uuuuffbbfcso hex>",...],"nav":[[pgno,subno] x 6]}  (blank cells projected as in F .. 4)
  */
 #include <stdio.h>
 #include <stdlib.h>
@@ -173,6 +176,33 @@ int main(void)
 			printf("{\"ok\":%d", ok);
 			if (ok) {
 				printf(",\"pgno\":%d,\"subno\":%d,\"nav\":[", pg.pgno, pg.subno);
+				for (c = 0; c < 6; c++) printf("%s[%d,%d]", c ? "," : "", pg.nav_link[c].pgno, pg.nav_link[c].subno);
+				printf("]");
+				vbi_unref_page(&pg);
+			}
+			printf("}\n");
+		} else if (line[0] == 'G') {
+			unsigned pgno, subno; int level = 1, nrows = 25, nav = 0, ok, r, c;
+			vbi_page pg;
+			sscanf(line + 1, "%x %x %d %d %d", &pgno, &subno, &level, &nrows, &nav);
+			memset(&pg, 0, sizeof pg);
+			ok = vbi_fetch_vt_page(vbi, &pg, pgno, subno, level == 1 ? VBI_WST_LEVEL_1 : level == 15 ? VBI_WST_LEVEL_1p5 :
+					       level == 25 ? VBI_WST_LEVEL_2p5 : VBI_WST_LEVEL_3p5, nrows, nav);
+			printf("{\"ok\":%d", ok);
+			if (ok) {
+				printf(",\"pgno\":%d,\"subno\":%d,\"nrows\":%d,\"ncols\":%d,\"rows\":[", pg.pgno, pg.subno, pg.rows, pg.columns);
+				for (r = 0; r < pg.rows; r++) {
+					printf("%s\"", r ? "," : "");
+					for (c = 0; c < pg.columns; c++) {
+						vbi_char *a = &pg.text[r * pg.columns + c];
+						if (a->unicode == 0x20 || a->unicode == 0xEE20 || a->unicode == 0xEE00)
+							printf("0020%02x%02x%x%x%x%x", 0, a->background, 0, 0, a->size, a->opacity);
+						else
+							printf("%04x%02x%02x%x%x%x%x", a->unicode, a->foreground, a->background, a->flash, a->conceal, a->size, a->opacity);
+					}
+					printf("\"");
+				}
+				printf("],\"nav\":[");
 				for (c = 0; c < 6; c++) printf("%s[%d,%d]", c ? "," : "", pg.nav_link[c].pgno, pg.nav_link[c].subno);
 				printf("]");
 				vbi_unref_page(&pg);
